@@ -18,3 +18,14 @@ Definition observable_only_in (fn : string) (s : string * string * string * stri
 Lemma observable_sites_known :
   forallb (observable_only_in "InferContext::register_type_declarations") hash_iter_sites = true.
 Proof. vm_compute. reflexivity. Qed.
+
+(* every sort / binary search / comparison / BTreeMap<Symbol,_> walk of the current source is classified *)
+Lemma symbol_order_sites_classified : forallb (classified order_classes) symbol_order_sites = true.
+Proof. vm_compute. reflexivity. Qed.
+
+(* ... and none of them is ordered by Symbol *)
+Definition not_symbol_order (s : string * string * string * string) : bool :=
+  match class_of order_classes s with Some NotSymbolOrder => true | _ => false end.
+
+Lemma no_symbol_order_site : forallb not_symbol_order symbol_order_sites = true.
+Proof. vm_compute. reflexivity. Qed.
